@@ -74,7 +74,7 @@ def build_dataset(case: dict):
         try:
             ds = MazeDataset.from_config(cfg, load_local=False, save_local=False, do_download=False)
         except ValueError as e:
-            raise Discard() from e
+            core.discard_if_unsatisfiable(e, "C05:build:from_config")
         mode = case.get("meta", "fresh")
         if mode == "collected":
             if len(ds) == 0:
@@ -244,7 +244,7 @@ def check_collection(case: dict):
         try:
             col = MazeDatasetCollection.generate(ccfg)
         except ValueError as e:
-            raise Discard() from e
+            core.discard_if_unsatisfiable(e, "C05:build:collection-generate")
         members = col.maze_datasets
     else:
         members = [build_dataset(m) for m in case["members"]]
